@@ -241,6 +241,11 @@ pub struct FaultPlan {
     pub fin_at_step: Option<u64>,
     pub rst_at_step: Option<u64>,
     pub wr_err_at_step: Option<u64>,
+    /// the peer's byte stream ends after exactly this many bytes have been delivered (everything
+    /// else it sent is lost), with FIN (false) or RST (true): connection loss at an arbitrary byte
+    pub close_after_bytes: Option<(u64, bool)>,
+    /// the endpoint's writes fail once exactly this many bytes have been written in total
+    pub wr_err_after_bytes: Option<u64>,
 }
 
 /// How a run ends after the scripted part.
